@@ -1,27 +1,44 @@
 // C17: multimethods and visitors call exactly the handler for the dynamic types.
 //   part A (engine E2, no faults): registration/erasure histories of functor_dispatcher over basic_dispatcher and basic_fast_dispatcher
 //   part B (E3): static_dispatcher for every ordered sub-list of the type list, symmetric and antisymmetric (generated instantiations)
-//   part C (E3): acyclic visitors for every subset of visited types x catch-all policy x constness; cyclic visitor
-#include <xtl/xmultimethods.hpp>
-#include <xtl/xvisitor.hpp>
-
-#include "history.hpp"
-
+//   part C (E3): acyclic visitors for every subset of handler bases (own flavour, other-constness flavour, other-return-type flavour
+//                 per visited type) x visited type x catch-all policy x constness of the hierarchy; cyclic visitor
+//   part D (engine E2, no faults): dispatcher OBJECTS AS VALUES - histories over one or two dispatcher objects whose alphabet contains,
+//                 besides insert/erase, dispatch calls as operations and every copy/move/swap/relocation of the dispatcher objects
 #ifndef PART_A
 #define PART_A 1
 #define PART_B 1
 #define PART_C 1
+#define PART_D 1
 #endif
+#ifndef PART_D
+#define PART_D 0
+#endif
+#define PART_MM (PART_A || PART_B || PART_D)
+
+// every binary sees only the header its part is about (a change to the other header does not rebuild it)
+#if PART_MM
+#include <xtl/xmultimethods.hpp>
+#endif
+#if PART_C
+#include <xtl/xvisitor.hpp>
+#endif
+
+#include "history.hpp"
 
 #include <array>
 #include <map>
+#include <memory>
 #include <stdexcept>
+#include <utility>
 
 using vf::Errs;
 using vf::str;
 namespace mpl = xtl::mpl;
 
 // ------------------------------------------------------------------------------------------------ hierarchy
+static const char* tn(int t) { return t == 0 ? "A" : t == 1 ? "B" : t == 2 ? "C" : t == 9 ? "Shape" : "-"; }
+#if PART_MM
 struct Shape
 {
     virtual ~Shape() = default;
@@ -36,7 +53,6 @@ template <> struct tagof<A> { static const int v = 0; };
 template <> struct tagof<B> { static const int v = 1; };
 template <> struct tagof<C> { static const int v = 2; };
 template <> struct tagof<Shape> { static const int v = 9; };
-static const char* tn(int t) { return t == 0 ? "A" : t == 1 ? "B" : t == 2 ? "C" : t == 9 ? "Shape" : "-"; }
 
 static A g_a;
 static B g_b;
@@ -54,9 +70,10 @@ static void reset_indices()
     C::get_class_static_index() = SIZE_MAX;
 }
 static std::string idx_s(std::size_t v) { return v == SIZE_MAX ? std::string("-") : str(v); }
+#endif
 
 // ------------------------------------------------------------------------------------------------ part A
-#if PART_A
+#if PART_A || PART_D
 typedef std::array<int, 3> Tup;   // type tags, padded with -1
 
 template <class D>
@@ -103,6 +120,8 @@ static void judge(const std::map<Tup, int>& m, const Tup& t, int K, bool threw, 
 }
 
 #define TYPES3(X) X(A) X(B) X(C)
+#endif
+#if PART_A
 
 // ---- K = 1
 template <class D, bool ERASE>
@@ -262,6 +281,237 @@ void run_dispatcher(const std::string& inst, int depth, long long max_states, do
 }
 
 #endif
+// ------------------------------------------------------------------------------------------------ part D: dispatcher objects as values
+#if PART_D
+// The statement speaks about "any set of registered handlers": the set a dispatcher OBJECT holds. Dispatchers are copyable and movable
+// values and dispatch() is a const member, so (1) a dispatch call must leave nothing behind that changes what a later call does and
+// (2) a dispatcher obtained by copy construction / copy assignment / move / swap holds the handlers of its source at that moment and is
+// independent of it afterwards. World = S dispatcher objects on the heap + one handler map per object. Alphabet:
+//   d<i>.insert<tuple>(h1|h2)  (the handler id also encodes the object it was registered through, so "ran the handler stored in the
+//   other object" is visible), d<i>.erase<tuple> (basic only), d<i>.dispatch(tuple) (judged when executed; it may change hidden state),
+//   d<i> = d<i> (self assignment), relocation of d<i> by copy / by move construction (the old object is destroyed), round trips through a
+//   copied / moved temporary, and for S = 2: d<i> = d<j>, d<i> = std::move(d<j>), d<i> := D(d<j>), d<i> := D(std::move(d<j>)), swap,
+//   d<i> := D() (basic only: a fresh fast dispatcher would be a second fast dispatcher on the hierarchy).
+// A moved-from object promises nothing: it is only used as the target of an assignment / construction until then.
+// After EVERY transition every live object is asked to dispatch EVERY tuple of the alphabet (as in part A).
+// Key = per object (moved-from flag, handler map, trail) + index assignment; the trail is the last g_trail tuples dispatched through the
+// value the object holds (it follows copies and moves), so histories that differ in what was dispatched recently are kept apart even
+// though the implementation as written keeps no such state.
+static int g_trail = 1;
+static int g_nt = 3;   // size of the type alphabet used by this instantiation ({A,B} or {A,B,C})
+
+template <class DT, bool ERASE>
+struct Api1
+{
+    typedef DT disp_type;
+    static const int K = 1;
+    static const bool has_erase = ERASE;
+    template <class T0> static void ins_t(DT& d, int id)
+    {
+        d.template insert<T0>([id](T0& a) -> int { g_calls.push_back(Call{id, {&a, nullptr, nullptr}, {tagof<T0>::v, -1, -1}, nullptr}); return id; });
+    }
+    static void ins(DT& d, const Tup& t, int id)
+    {
+#define X(T) if (t[0] == tagof<T>::v) return ins_t<T>(d, id);
+        TYPES3(X)
+#undef X
+    }
+    template <class T0> static void er_t(DT& d, std::true_type) { d.template erase<T0>(); }
+    template <class T0> static void er_t(DT&, std::false_type) {}
+    static void er(DT& d, const Tup& t)
+    {
+#define X(T) if (t[0] == tagof<T>::v) return er_t<T>(d, std::integral_constant<bool, ERASE>());
+        TYPES3(X)
+#undef X
+    }
+    static int disp(const DT& d, const Tup& t) { return d.dispatch(*g_obj[t[0]]); }
+};
+
+template <class DT, bool ERASE>
+struct Api2
+{
+    typedef DT disp_type;
+    static const int K = 2;
+    static const bool has_erase = ERASE;
+    template <class T0, class T1> static void ins_t(DT& d, int id)
+    {
+        d.template insert<T0, T1>([id](T0& a, T1& b) -> int { g_calls.push_back(Call{id, {&a, &b, nullptr}, {tagof<T0>::v, tagof<T1>::v, -1}, nullptr}); return id; });
+    }
+    template <class T0, class T1> static void er_t(DT& d, std::true_type) { d.template erase<T0, T1>(); }
+    template <class T0, class T1> static void er_t(DT&, std::false_type) {}
+#define Y(T, U) if (t[0] == tagof<T>::v && t[1] == tagof<U>::v) return PAIR_DO(T, U);
+#define X(T) Y(T, A) Y(T, B) Y(T, C)
+    static void ins(DT& d, const Tup& t, int id)
+    {
+#define PAIR_DO(T, U) ins_t<T, U>(d, id)
+        TYPES3(X)
+#undef PAIR_DO
+    }
+    static void er(DT& d, const Tup& t)
+    {
+#define PAIR_DO(T, U) er_t<T, U>(d, std::integral_constant<bool, ERASE>())
+        TYPES3(X)
+#undef PAIR_DO
+    }
+#undef X
+#undef Y
+    static int disp(const DT& d, const Tup& t) { return d.dispatch(*g_obj[t[0]], *g_obj[t[1]]); }
+};
+
+static std::string tup_s(const Tup& t, int K) { std::string s = tn(t[0]); for (int i = 1; i < K; ++i) s += std::string(",") + tn(t[i]); return s; }
+
+template <class API, int S>
+struct VWorld
+{
+    typedef typename API::disp_type DT;
+    std::unique_ptr<DT> d[S];
+    bool moved[S];
+    std::map<Tup, int> m[S];
+    std::vector<Tup> trail[S];
+
+    VWorld()
+    {
+        reset_indices();
+        g_calls.clear();
+        for (int i = 0; i < S; ++i) { d[i].reset(new DT); moved[i] = false; }
+    }
+    static std::vector<Tup> tuples()
+    {
+        std::vector<Tup> v;
+        if (API::K == 1) for (int i = 0; i < g_nt; ++i) v.push_back(Tup{{i, -1, -1}});
+        else for (int i = 0; i < g_nt; ++i) for (int j = 0; j < g_nt; ++j) v.push_back(Tup{{i, j, -1}});
+        return v;
+    }
+    std::string key() const
+    {
+        std::string k;
+        for (int i = 0; i < S; ++i)
+        {
+            k += "d" + str(i) + "{";
+            if (moved[i]) k += "moved-from";
+            else for (auto& kv : m[i]) k += tup_s(kv.first, API::K) + ">" + str(kv.second) + " ";
+            k += "} trail[";
+            for (auto& t : trail[i]) k += tup_s(t, API::K) + " ";
+            k += "] ";
+        }
+        k += "| idx " + idx_s(A::get_class_static_index()) + idx_s(B::get_class_static_index()) + idx_s(C::get_class_static_index());
+        return k;
+    }
+    void dispatch_one(int i, const Tup& t, Errs& e)
+    {
+        g_calls.clear();
+        bool threw = false; int ret = 0;
+        try { ret = API::disp(*d[i], t); } catch (const std::exception&) { threw = true; }
+        Errs mine;
+        judge(m[i], t, API::K, threw, ret, nullptr, mine);
+        for (auto& kv : mine.v) e.add(kv.first, "d" + str(i) + "." + kv.second);
+    }
+    void light(Errs& e)
+    {
+        for (int i = 0; i < S; ++i)
+        {
+            if (moved[i]) continue;
+            for (auto& t : tuples()) dispatch_one(i, t, e);
+        }
+    }
+    void check(Errs&) {}
+    void push_trail(int i, const Tup& t)
+    {
+        trail[i].push_back(t);
+        if (int(trail[i].size()) > g_trail) trail[i].erase(trail[i].begin());
+    }
+};
+
+template <class API, int S, bool FAST>
+void run_values(const std::string& inst, int nt, int depth, long long max_states, double deadline, bool replay, const std::string& trace)
+{
+    typedef VWorld<API, S> W;
+    typedef typename API::disp_type DT;
+    g_nt = nt;
+    vf::HistoryExplorer<W> hx;
+    hx.prop = "C17";
+    hx.inst = inst;
+    hx.max_depth = depth;
+    hx.max_states = max_states;
+    hx.deadline_s = deadline;
+    const int K = API::K;
+    for (int i = 0; i < S; ++i)
+    {
+        const std::string di = "d" + str(i);
+        for (auto& t : W::tuples())
+        {
+            for (int h = 1; h <= 2; ++h)
+            {
+                const int id = 10 * i + h;
+                hx.add_op("insert", di + ".insert<" + tup_s(t, K) + ">(h" + str(h) + ")", [i, t, id](W& w, Errs&) {
+                    if (w.moved[i]) return false;
+                    API::ins(*w.d[i], t, id); w.m[i][t] = id; return true; });
+            }
+            if (API::has_erase)
+                hx.add_op("erase", di + ".erase<" + tup_s(t, K) + ">", [i, t](W& w, Errs&) {
+                    if (w.moved[i]) return false;
+                    API::er(*w.d[i], t); w.m[i].erase(t); return true; });
+            hx.add_op("dispatch", di + ".dispatch(" + tup_s(t, K) + ")", [i, t](W& w, Errs& e) {
+                if (w.moved[i]) return false;
+                w.dispatch_one(i, t, e); w.push_trail(i, t); return true; });
+        }
+        hx.add_op("self-assign", di + " = " + di, [i](W& w, Errs&) {
+            if (w.moved[i]) return false;
+            const DT& same = *w.d[i]; *w.d[i] = same; return true; });
+        hx.add_op("relocate-copy", di + " relocated by copy construction", [i](W& w, Errs&) {
+            if (w.moved[i]) return false;
+            std::unique_ptr<DT> n(new DT(*w.d[i])); w.d[i] = std::move(n); return true; });
+        hx.add_op("relocate-move", di + " relocated by move construction", [i](W& w, Errs&) {
+            if (w.moved[i]) return false;
+            std::unique_ptr<DT> n(new DT(std::move(*w.d[i]))); w.d[i] = std::move(n); return true; });
+        hx.add_op("roundtrip-copy", di + " = copy of " + di, [i](W& w, Errs&) {
+            if (w.moved[i]) return false;
+            std::unique_ptr<DT> tmp(new DT(*w.d[i])); *w.d[i] = *tmp; return true; });
+        hx.add_op("roundtrip-move", di + " moved out and back", [i](W& w, Errs&) {
+            if (w.moved[i]) return false;
+            std::unique_ptr<DT> tmp(new DT(std::move(*w.d[i]))); *w.d[i] = std::move(*tmp); return true; });
+        if (!FAST)
+            hx.add_op("fresh", di + " := D()", [i](W& w, Errs&) {
+                w.d[i].reset(new DT); w.m[i].clear(); w.trail[i].clear(); w.moved[i] = false; return true; });
+        for (int j = 0; j < S; ++j)
+        {
+            if (j == i) continue;
+            const std::string dj = "d" + str(j);
+            hx.add_op("copy-assign", di + " = " + dj, [i, j](W& w, Errs&) {
+                if (w.moved[j]) return false;
+                *w.d[i] = *w.d[j]; w.m[i] = w.m[j]; w.trail[i] = w.trail[j]; w.moved[i] = false; return true; });
+            hx.add_op("copy-construct", di + " := D(" + dj + ")", [i, j](W& w, Errs&) {
+                if (w.moved[j]) return false;
+                w.d[i].reset(new DT(*w.d[j])); w.m[i] = w.m[j]; w.trail[i] = w.trail[j]; w.moved[i] = false; return true; });
+            hx.add_op("move-assign", di + " = std::move(" + dj + ")", [i, j](W& w, Errs&) {
+                if (w.moved[j]) return false;
+                *w.d[i] = std::move(*w.d[j]); w.m[i] = w.m[j]; w.trail[i] = w.trail[j]; w.moved[i] = false; w.m[j].clear(); w.moved[j] = true; return true; });
+            hx.add_op("move-construct", di + " := D(std::move(" + dj + "))", [i, j](W& w, Errs&) {
+                if (w.moved[j]) return false;
+                w.d[i].reset(new DT(std::move(*w.d[j]))); w.m[i] = w.m[j]; w.trail[i] = w.trail[j]; w.moved[i] = false; w.m[j].clear(); w.moved[j] = true; return true; });
+            if (i < j)
+                hx.add_op("swap", "swap(" + di + "," + dj + ")", [i, j](W& w, Errs&) {
+                    if (w.moved[i] || w.moved[j]) return false;
+                    std::swap(*w.d[i], *w.d[j]); std::swap(w.m[i], w.m[j]); std::swap(w.trail[i], w.trail[j]); return true; });
+        }
+    }
+    if (replay) { hx.replay(trace); return; }
+    hx.run();
+    hx.summarize(depth == (1 << 30));
+    vf::stat("operation_instances", (long long)hx.ops.size());
+    vf::stat("value_world_operation_instances", (long long)hx.ops.size());
+    long long disp_ops = 0, transfer = 0;
+    for (auto& kv : hx.per_kind)
+    {
+        if (kv.first == "dispatch") disp_ops += kv.second.first;
+        else if (kv.first != "insert" && kv.first != "erase") transfer += kv.second.first;
+    }
+    vf::stat("value_world_transitions", hx.transitions);
+    vf::stat("value_world_states", (long long)hx.nodes.size());
+    vf::stat("dispatch_transitions", disp_ops);
+    vf::stat("copy_move_swap_relocate_transitions", transfer);
+}
+#endif
 // ------------------------------------------------------------------------------------------------ part B: static_dispatcher
 #if PART_B
 struct Exec
@@ -343,71 +593,144 @@ DEFINE_HIER(HN_throwing, false, throwing_catch_all, XTL_DEFINE_VISITABLE)
 DEFINE_HIER(HC_default, true, default_catch_all, XTL_DEFINE_CONST_VISITABLE)
 DEFINE_HIER(HC_throwing, true, throwing_catch_all, XTL_DEFINE_CONST_VISITABLE)
 
-struct VisitLog { int visited_tag = -1; const void* addr = nullptr; int count = 0; };
+// A concrete visitor may carry, for every visited class T, any subset of three handler bases:
+//   own          xtl::visitor<T, int, c>     the handler of a hierarchy base_visitable<int, c, ...> (c = constness of the hierarchy)
+//   other-const  xtl::visitor<T, int, !c>    the handler for T in a hierarchy of the OTHER constness
+//   other-ret    xtl::visitor<T, long, c>    the handler for T in a hierarchy with another return type
+// Only "own" is a handler registered for T in the hierarchy being visited; the other two are "some other handler".
+// MASK bits: 0-2 own A,B,C; 3-5 other-const A,B,C; 6-8 other-ret A,B,C. Quick enumerates bits 0-5 completely and bit block 6-8 as one
+// switch (all three or none) = 128 visitor classes per hierarchy; thorough (VIS_FULL) enumerates all 512 subsets of the nine bases.
+struct VisitLog { int visited_tag = -1; int flavour = -1; const void* addr = nullptr; int count = 0; };
+static const char* flav_name(int f) { return f == 0 ? "own" : f == 1 ? "other-constness" : f == 2 ? "other-return-type" : "-"; }
 
-template <class T, int TAG, bool CONSTV, bool ON>
-struct MaybeVisitor : xtl::visitor<T, int, CONSTV>
+template <class T, int TAG, int FLAV, bool CONSTV, class R, bool ON>
+struct MaybeVisitor : xtl::visitor<T, R, CONSTV>
 {
     VisitLog* log = nullptr;
-    int visit(typename xtl::visitor<T, int, CONSTV>::param_type& t) override { log->visited_tag = TAG; log->addr = &t; ++log->count; return 10 + TAG; }
+    R visit(typename xtl::visitor<T, R, CONSTV>::param_type& t) override { log->visited_tag = TAG; log->flavour = FLAV; log->addr = &t; ++log->count; return R(10 + TAG + 100 * FLAV); }
 };
-template <class T, int TAG, bool CONSTV>
-struct MaybeVisitor<T, TAG, CONSTV, false> { VisitLog* log = nullptr; };
+template <class T, int TAG, int FLAV, bool CONSTV, class R>
+struct MaybeVisitor<T, TAG, FLAV, CONSTV, R, false> { VisitLog* log = nullptr; };
 
 template <class H, int MASK>
 struct Vis : xtl::base_visitor,
-             MaybeVisitor<typename H::LA, 0, H::is_const, (MASK & 1) != 0>,
-             MaybeVisitor<typename H::LB, 1, H::is_const, (MASK & 2) != 0>,
-             MaybeVisitor<typename H::LC, 2, H::is_const, (MASK & 4) != 0>
+             MaybeVisitor<typename H::LA, 0, 0, H::is_const, int, (MASK & 1) != 0>,
+             MaybeVisitor<typename H::LB, 1, 0, H::is_const, int, (MASK & 2) != 0>,
+             MaybeVisitor<typename H::LC, 2, 0, H::is_const, int, (MASK & 4) != 0>,
+             MaybeVisitor<typename H::LA, 0, 1, !H::is_const, int, (MASK & 8) != 0>,
+             MaybeVisitor<typename H::LB, 1, 1, !H::is_const, int, (MASK & 16) != 0>,
+             MaybeVisitor<typename H::LC, 2, 1, !H::is_const, int, (MASK & 32) != 0>,
+             MaybeVisitor<typename H::LA, 0, 2, H::is_const, long, (MASK & 64) != 0>,
+             MaybeVisitor<typename H::LB, 1, 2, H::is_const, long, (MASK & 128) != 0>,
+             MaybeVisitor<typename H::LC, 2, 2, H::is_const, long, (MASK & 256) != 0>
 {
     VisitLog lg;
     Vis()
     {
-        MaybeVisitor<typename H::LA, 0, H::is_const, (MASK & 1) != 0>::log = &lg;
-        MaybeVisitor<typename H::LB, 1, H::is_const, (MASK & 2) != 0>::log = &lg;
-        MaybeVisitor<typename H::LC, 2, H::is_const, (MASK & 4) != 0>::log = &lg;
+        MaybeVisitor<typename H::LA, 0, 0, H::is_const, int, (MASK & 1) != 0>::log = &lg;
+        MaybeVisitor<typename H::LB, 1, 0, H::is_const, int, (MASK & 2) != 0>::log = &lg;
+        MaybeVisitor<typename H::LC, 2, 0, H::is_const, int, (MASK & 4) != 0>::log = &lg;
+        MaybeVisitor<typename H::LA, 0, 1, !H::is_const, int, (MASK & 8) != 0>::log = &lg;
+        MaybeVisitor<typename H::LB, 1, 1, !H::is_const, int, (MASK & 16) != 0>::log = &lg;
+        MaybeVisitor<typename H::LC, 2, 1, !H::is_const, int, (MASK & 32) != 0>::log = &lg;
+        MaybeVisitor<typename H::LA, 0, 2, H::is_const, long, (MASK & 64) != 0>::log = &lg;
+        MaybeVisitor<typename H::LB, 1, 2, H::is_const, long, (MASK & 128) != 0>::log = &lg;
+        MaybeVisitor<typename H::LC, 2, 2, H::is_const, long, (MASK & 256) != 0>::log = &lg;
     }
 };
 
-static long long g_visit_cases = 0;
+static long long g_visit_cases = 0, g_visit_handled = 0, g_visit_foreign_only = 0, g_visit_classes = 0;
 
 template <class Root, class V> int do_accept(Root* o, V& v, std::false_type) { return o->accept(v); }
 template <class Root, class V> int do_accept(Root* o, V& v, std::true_type) { const Root* co = o; return co->accept(v); }
 
-template <class H, int MASK, bool THROWING>
-void visitor_case(const char* hname)
+static std::string mask_s(int mask)
+{
+    std::string s;
+    for (int f = 0; f < 3; ++f) for (int t = 0; t < 3; ++t) if ((mask >> (3 * f + t)) & 1) s += std::string(s.empty() ? "" : " ") + flav_name(f) + ":" + tn(t);
+    return s.empty() ? std::string("none") : s;
+}
+
+// the templated part only executes (one visitor class x three visited objects); judging is one ordinary function
+struct VisOutcome { bool threw; int ret; VisitLog lg; bool same_object; };
+
+template <class H, int MASK>
+void visitor_exec(VisOutcome* out)
 {
     typename H::LA la; typename H::LB lb; typename H::LC lc;
     typename H::Root* objs[3] = {&la, &lb, &lc};
+    const void* addrs[3] = {&la, &lb, &lc};
     for (int t = 0; t < 3; ++t)
     {
         Vis<H, MASK> v;
-        bool threw = false; int ret = -7;
-        try { ret = do_accept(objs[t], v, std::integral_constant<bool, H::is_const>()); } catch (const std::runtime_error&) { threw = true; }
+        out[t].threw = false; out[t].ret = -7;
+        try { out[t].ret = do_accept(objs[t], v, std::integral_constant<bool, H::is_const>()); } catch (const std::runtime_error&) { out[t].threw = true; }
+        out[t].lg = v.lg;
+        out[t].same_object = v.lg.addr == addrs[t];
+    }
+}
+
+static void visitor_judge(const char* hname, int MASK, bool THROWING, const VisOutcome* out)
+{
+    ++g_visit_classes;
+    for (int t = 0; t < 3; ++t)
+    {
+        const VisOutcome& o = out[t];
         ++g_visit_cases;
         bool handled = (MASK >> t) & 1;
-        std::string who = std::string("acyclic ") + hname + " visitor with handlers mask " + str(MASK) + " visiting " + tn(t);
+        bool foreign = ((MASK >> (3 + t)) & 1) || ((MASK >> (6 + t)) & 1);
+        std::string who = std::string("acyclic ") + hname + " visitor with handler bases {" + mask_s(MASK) + "} (mask " + str(MASK) + ") visiting " + tn(t);
         std::string sig = std::string("C17/visitor/") + hname;
+        std::string ran = o.lg.count ? std::string("visit(") + tn(o.lg.visited_tag) + ") of the " + flav_name(o.lg.flavour) + " flavour" : std::string("no handler");
         if (handled)
         {
-            if (threw || v.lg.count != 1 || v.lg.visited_tag != t || ret != 10 + t) vf::violation(sig + "/wrong-visit", who + ": expected visit(" + tn(t) + "&) exactly once returning " + str(10 + t) + "; got tag " + str(v.lg.visited_tag) + " count " + str(v.lg.count) + " ret " + str(ret) + (threw ? " (threw)" : ""), {"--visitors-only"});
-            else if (v.lg.addr != (t == 0 ? static_cast<const void*>(&la) : t == 1 ? static_cast<const void*>(&lb) : static_cast<const void*>(&lc))) vf::violation(sig + "/identity", who + ": visit received another object", {"--visitors-only"});
+            ++g_visit_handled;
+            if (o.threw || o.lg.count != 1 || o.lg.visited_tag != t || o.lg.flavour != 0 || o.ret != 10 + t) vf::violation(sig + "/wrong-visit", who + ": expected visit(" + tn(t) + "&) of the hierarchy's own flavour exactly once returning " + str(10 + t) + "; ran " + ran + ", count " + str(o.lg.count) + " ret " + str(o.ret) + (o.threw ? " (threw)" : ""), {"--visitors-only"});
+            else if (!o.same_object) vf::violation(sig + "/identity", who + ": visit received another object", {"--visitors-only"});
         }
         else
         {
-            if (v.lg.count != 0) vf::violation(sig + "/other-handler-ran", who + ": no handler for that type, but visit(" + tn(v.lg.visited_tag) + ") ran", {"--visitors-only"});
-            if (THROWING && !threw) vf::violation(sig + "/catch-all-policy", who + ": the throwing catch-all policy did not throw (returned " + str(ret) + ")", {"--visitors-only"});
-            if (!THROWING && (threw || ret != 0)) vf::violation(sig + "/catch-all-policy", who + ": the default catch-all policy must return R() == 0; " + (threw ? "threw" : "returned " + str(ret)), {"--visitors-only"});
+            if (foreign) ++g_visit_foreign_only;
+            if (o.lg.count != 0) vf::violation(sig + "/other-handler-ran", who + ": no handler of this hierarchy for that type, but " + ran + " ran", {"--visitors-only"});
+            if (THROWING && !o.threw) vf::violation(sig + "/catch-all-policy", who + ": the throwing catch-all policy did not throw (returned " + str(o.ret) + ")", {"--visitors-only"});
+            if (!THROWING && (o.threw || o.ret != 0)) vf::violation(sig + "/catch-all-policy", who + ": the default catch-all policy must return R() == 0; " + (o.threw ? "threw" : "returned " + str(o.ret)), {"--visitors-only"});
         }
     }
 }
 
-template <class H, bool THROWING>
-void visitor_all(const char* hname)
+template <class H, int MASK, bool THROWING>
+void visitor_case(const char* hname)
 {
-    visitor_case<H, 0, THROWING>(hname); visitor_case<H, 1, THROWING>(hname); visitor_case<H, 2, THROWING>(hname); visitor_case<H, 3, THROWING>(hname);
-    visitor_case<H, 4, THROWING>(hname); visitor_case<H, 5, THROWING>(hname); visitor_case<H, 6, THROWING>(hname); visitor_case<H, 7, THROWING>(hname);
+    VisOutcome out[3];
+    visitor_exec<H, MASK>(out);
+    visitor_judge(hname, MASK, THROWING, out);
 }
+
+#ifdef VIS_FULL
+static const int VIS_N = 512;
+template <int I> struct vis_mask { static const int v = I; };
+#else
+static const int VIS_N = 128;
+template <int I> struct vis_mask { static const int v = (I & 63) | ((I & 64) ? 448 : 0); };
+#endif
+
+template <class H, bool THROWING, int LO, int HI>
+struct visitor_range
+{
+    static void run(const char* hname)
+    {
+        visitor_range<H, THROWING, LO, (LO + HI) / 2>::run(hname);
+        visitor_range<H, THROWING, (LO + HI) / 2, HI>::run(hname);
+    }
+};
+template <class H, bool THROWING, int LO>
+struct visitor_range<H, THROWING, LO, LO + 1>
+{
+    static void run(const char* hname) { visitor_case<H, vis_mask<LO>::v, THROWING>(hname); }
+};
+
+template <class H, bool THROWING>
+void visitor_all(const char* hname) { visitor_range<H, THROWING, 0, VIS_N>::run(hname); }
 
 // cyclic visitor over the full list
 struct CA; struct CB; struct CC;
@@ -451,12 +774,15 @@ static void run_visitors()
         if (rc != 30 + t || cv.addr != dynamic_cast<const void*>(objs[t])) vf::violation("C17/visitor/cyclic-const/wrong-visit", std::string("const cyclic visitor on ") + tn(t) + " returned " + str(rc), {"--visitors-only"});
     }
     vf::stat("visitor_cases", g_visit_cases);
+    vf::stat("visitor_cases_own_handler_present", g_visit_handled);
+    vf::stat("visitor_cases_only_foreign_handlers_for_visited_type", g_visit_foreign_only);
+    vf::stat("visitor_classes", g_visit_classes);
 }
 
 #endif
 // ------------------------------------------------------------------------------------------------ main
 #define COMMA ,
-#if PART_A
+#if PART_A || PART_D
 typedef mpl::vector<> NoUD;
 typedef mpl::vector<int> IntUD;
 typedef xtl::functor_dispatcher<mpl::vector<Shape>, int, NoUD, xtl::dynamic_caster, xtl::basic_dispatcher> D1b;
@@ -486,6 +812,9 @@ int main(int argc, char** argv)
         else if (a == "--max-states") max_states = atoll(argv[++i]);
         else if (a == "--deadline") deadline = atof(argv[++i]);
         else if (a == "--replay") { replay = true; inst = argv[++i]; trace = argv[++i]; }
+#if PART_D
+        else if (a == "--trail") g_trail = atoi(argv[++i]);
+#endif
         else if (a == "--static-only") static_only = true;
         else if (a == "--visitors-only") visitors_only = true;
     }
@@ -507,6 +836,16 @@ int main(int argc, char** argv)
     RUN("fast2-extra", Ops2<D2fx COMMA false COMMA true>)
     RUN("basic3", Ops3<D3b COMMA true>)
     RUN("fast3", Ops3<D3f COMMA false>)
+#endif
+#if PART_D
+#define RUNV(NAME, API, S, FAST, NT) if (inst == NAME) run_values<API, S, FAST>(NAME, NT, depth, max_states, deadline, replay, trace);
+    RUNV("val-basic1", Api1<D1b COMMA true>, 2, false, 3)
+    RUNV("val-basic2", Api2<D2b COMMA true>, 2, false, 2)
+    RUNV("val-basic2x1", Api2<D2b COMMA true>, 1, false, 3)
+    RUNV("val-fast1", Api1<D1f COMMA false>, 1, true, 3)
+    RUNV("val-fast2", Api2<D2f COMMA false>, 1, true, 3)
+#endif
+#if PART_A || PART_D
     vf::stat("dispatch_calls", g_dispatches);
     vf::stat("dispatch_calls_to_registered_tuples", g_dispatch_hits);
 #endif
